@@ -503,6 +503,7 @@ def hash_name(name):
 def uf(name, arity=1):
     """uninterpreted function R^arity -> R.  sym: z3 UF; const/plain: a fixed generic
     non-linear function (so that order / omission of stages changes the value)"""
+    ST.ufs[name] = arity
     if ST.mode == "sym":
         z3 = _z3()
         c = _core()
@@ -513,6 +514,19 @@ def uf(name, arity=1):
 
         return f
     g = _generic_fn(name, arity)
+    table = ST.values.get("uf:" + name)
+    if isinstance(table, dict):
+        # replay: the solver's own interpretation of the function (finite table + else value)
+        ents = [([float(Fraction(a)) for a in args], float(Fraction(val))) for args, val in table["entries"]]
+        els = float(Fraction(table["els"]))
+
+        def g(*xs):  # noqa: F811
+            xs = [float(x) for x in xs]
+            for args, val in ents:
+                if all(abs(a - x) <= 1e-9 * max(1.0, abs(a), abs(x)) for a, x in zip(args, xs)):
+                    return val
+            return els
+
     if ST.mode == "const":
         c = _core()
 
